@@ -68,5 +68,89 @@ PROPS["C16"] = {
     "assumptions": ["cuts that end in a reader-macro token or leave an odd map are outside the property's premise (cannot be completed by closers alone)"],
 }
 
+_EVAL_NOTE = ("Trusted: Lean kernel; the hand-written mirror of EVAL/eval_ast/do/macroexpand/quasiquote/Apply/bind and of the builtins "
+              "(lean/LispModel/Eval.lean, Core.lean), whose faithfulness is checked (not assumed) on every run by evaluating generated programs with "
+              "the real interpreter in a freshly loaded environment and diffing value / thrown value / ordered trace! effects / final definitions / "
+              "poll count / EVAL-frame depth marks with the model; Go integer wrap-around and float arithmetic are not modelled.")
+PROPS["C01"] = {
+    "lean_module": "LispModel.Props.C01",
+    "engines": [{"name": "eval", "quick": 6000, "thorough": 120000}],
+    "ignore_spec": {},
+    "technique": "Lean 4 theorems (evaluation laws of the implementation-shaped evaluator model) + differential correspondence on typed random programs",
+    "level_text": "Kernel-checked evaluation laws (one per clause of the language definition: scoping, sequential let, def, closures, truthiness, "
+                  "selected branch only, body order / last value, arguments once and left to right, & rest, arity errors) proved about the Lean mirror of EVAL "
+                  "for all programs, stores and fuel; mirror tied to the real evaluator by typed random programs with trace! effects.",
+    "level_note": _EVAL_NOTE,
+    "assumptions": ["programs over the modelled builtin vocabulary", "hash-map literals with effectful values are evaluated in Go map order (outside the property's program class)"],
+}
+PROPS["C03"] = {
+    "lean_module": "LispModel.Props.C03",
+    "engines": [{"name": "try", "quick": 5000, "thorough": 100000}],
+    "technique": "Lean 4 theorems about the try/catch/finally arm of the evaluator model + differential correspondence on nested try programs",
+    "level_text": "Theorems: value of try = body value or handler value (returned, not re-evaluated), catch variable scoped to the handler, finally runs exactly "
+                  "once on every path without changing the outcome, thrown payload unchanged through calls / builtin callbacks / nested tries; tie: generated "
+                  "programs nesting try/catch/finally with throws from body, callee, builtin, handler, finally.",
+    "level_note": _EVAL_NOTE,
+    "assumptions": ["Go error objects are compared by class (payload kind), errors.Is reachability is exercised by the harness only"],
+}
+PROPS["C04"] = {
+    "lean_module": "LispModel.Props.C04",
+    "engines": [{"name": "malformed", "quick": 400, "thorough": 20000}],
+    "violation_if": {"malformed": r"^(PANIC|HANG)"},
+    "technique": "Lean 4 theorems (total evaluator model without panic outcome; every error is catchable) + exhaustive malformed-form enumeration against the real EVAL",
+    "level_text": "The evaluator model is a total function whose only outcomes are value / error / out-of-fuel, and every error outcome is caught by "
+                  "(try … (catch e …)); that the real EVAL has no further outcome (a Go panic) is checked by enumerating every special-form head and builtin "
+                  "with 0–2 operands of 29 kinds (and sampled 3–4 operands, nested in wrappers), each also wrapped in try/catch, and diffing with the model.",
+    "level_note": _EVAL_NOTE,
+    "assumptions": ["acyclic values; recursion that terminates within the host stack"],
+}
+PROPS["C07"] = {
+    "lean_module": "LispModel.Props.C07",
+    "engines": [{"name": "cancel", "quick": 2500, "thorough": 40000}],
+    "technique": "Lean 4 theorems about the poll structure of the evaluator model (every loop iteration polls first) + poll-counting context correspondence",
+    "level_text": "PARTIAL: the logic is proved in poll ticks (after the cancelling poll every evaluation step returns the timeout error at once, no effect "
+                  "is appended, the number of further polls is bounded by the try nesting); the tie runs real EVAL under a context whose Done() closes at the "
+                  "n-th poll and compares outcome, trace and poll count with the model. Wall-clock latency of the Go scheduler is not exhibited by the model.",
+    "level_note": _EVAL_NOTE,
+    "assumptions": ["single builtin calls are short (small data)", "goroutine wake-up latency, time.After and context propagation are runtime behaviour outside the model"],
+}
+PROPS["C08"] = {
+    "lean_module": "LispModel.Props.C08",
+    "engines": [{"name": "tail", "quick": 1200, "thorough": 20000}],
+    "technique": "Lean 4 theorems about the EVAL-frame depth carried by the evaluator model + depth! marks compared with runtime.Callers frame counts",
+    "level_text": "PARTIAL: 'no additional host stack' is proved as 'no additional EVAL activation': every tail-position construct continues the loop at the same "
+                  "depth; the tie demands equality of the model's depth with the number of lisp.EVAL frames counted on the real stack at every depth! mark.",
+    "level_note": _EVAL_NOTE,
+    "assumptions": ["bytes of Go stack per frame and Go's own stack growth are not modelled"],
+}
+PROPS["C12"] = {
+    "lean_module": "LispModel.Props.C12",
+    "engines": [{"name": "qq", "quick": 4000, "thorough": 80000}, {"name": "macro", "quick": 1500, "thorough": 30000}],
+    "technique": "Lean 4 theorems (quasiquote = template substitution; macro call = evaluation of its expansion) + differential correspondence",
+    "level_text": "Theorems about the mirror of quasiquote/qq_loop/macroexpand for templates of any nesting; tie: generated templates (unquote / splice at any "
+                  "position, vectors, maps, symbols) and macros built from them (recursive, expanding to library macros), call route vs macroexpand route.",
+    "level_note": _EVAL_NOTE,
+    "assumptions": ["cons, concat and vec resolve to the core builtins in the scope of the template (the code looks them up by name)"],
+}
+PROPS["C13"] = {
+    "lean_module": "LispModel.Props.C13",
+    "engines": [{"name": "coll", "quick": 8000, "thorough": 200000}],
+    "technique": "Lean 4 algebraic laws of the pure builtin model (sequence / map / set model) + differential correspondence on generated calls and compositions",
+    "level_text": "The builtins are modelled as pure functions on immutable values (Core.lean) and shown to satisfy the sequence/map/set laws; the model is "
+                  "compared with the real builtins (through the reflective binder) on generated argument tuples incl. nil, empty, negative and out-of-range indices.",
+    "level_note": _EVAL_NOTE,
+    "assumptions": ["where README and step files are silent the spec follows the code (table in DESIGN.md)", "results that expose Go map iteration order are compared on ≤1-entry collections only"],
+}
+PROPS["C18"] = {
+    "lean_module": "LispModel.Props.C18",
+    "engines": [{"name": "step", "quick": 4000, "thorough": 60000}],
+    "technique": "Lean 4 simulation theorem (evaluator with scripted Stepper vs without) + differential correspondence incl. the exact sequence of forms shown to the callback",
+    "level_text": "Theorem: for every command script the evaluator model with a Stepper returns the same result, trace and store as without; tie: programs "
+                  "with special forms, closures, macros, try/catch/finally under random scripts, compared with the run without Stepper and with the model "
+                  "(which predicts which forms the callback sees).",
+    "level_note": _EVAL_NOTE,
+    "assumptions": ["the four documented commands (no-op, next, in, out); bounded recursion depth"],
+}
+
 # properties not claimed at this commit, with the reason
 NOT_CLAIMED = {}
